@@ -435,6 +435,7 @@ def replay(check: Check, path):
 def _machine_worker(args):
     si, widx, runs, steps, seed, deadline = args
     import hypothesis
+    import hypothesis.errors
     from hypothesis import settings, HealthCheck, Phase
     from hypothesis.stateful import run_state_machine_as_test
     st = _CTX["stages"][si]
@@ -450,6 +451,11 @@ def _machine_worker(args):
         msg = str(e)
         sig = msg.split("|")[0].strip()[:120] if msg else "assertion"
         res.failures.append((sig, msg[:600], {"trace": acc["trace"]}))
+    except hypothesis.errors.Flaky as e:
+        # the rules draw nothing that depends on the code under test, so a history whose outcome changes between two executions in one
+        # process means the code keeps state outside the objects the history creates
+        res.failures.append(("history: the same call history behaves differently when executed again in the same process",
+                             (type(e).__name__ + ": " + str(e))[:600], {"trace": acc["trace"]}))
     res.evaluations = acc["runs"]
     res.nontrivial_keys = acc["nontrivial"]
     res.labels = acc["labels"]
